@@ -100,6 +100,7 @@ type world struct {
 	skipKey       map[string]bool      // key -> a concurrent-phase operation started before that instant: not judged
 	opStart       map[string]time.Time // task -> start of its current operation
 	opStall0      map[string]time.Duration
+	srvErr        [][2]time.Time // periods in which the Redis server answered with errors
 	lastFar       map[string]bool // the last successful write of the key carried no or a far expiry
 	byTask        map[string]*taskState
 	// cancellations tied to the next mutation of a key (C07)
@@ -296,6 +297,16 @@ func rk(s string) string {
 	return s
 }
 
+// srvErrDuring: did the server refuse to work at some moment of [a, b]?
+func (w *world) srvErrDuring(a, b time.Time) bool {
+	for _, iv := range w.srvErr {
+		if !iv[0].After(b) && (iv[1].IsZero() || !iv[1].Before(a)) {
+			return true
+		}
+	}
+	return false
+}
+
 func (ts *taskState) callerVer(w *world, key string) string {
 	if w.c.Knob("caller_versions", 0) == 0 {
 		return ""
@@ -423,6 +434,17 @@ func (w *world) doOp(ctx context.Context, ts *taskState, op sim.Op, i int) {
 	case "jump":
 		zsimrt.Sleep("task:jump", time.Duration(op.D))
 		e.Logf("%s jump %v", ts.name, time.Duration(op.D))
+		return
+	case "srverr":
+		// the Redis server answers every command with an error reply for a while
+		w.be.SetServerError("ERR injected: the server refuses to work")
+		w.srvErr = append(w.srvErr, [2]time.Time{time.Now(), {}})
+		e.FaultFired("server_error_replies")
+		e.Logf("%s server answers with errors for %v", ts.name, time.Duration(op.D))
+		zsimrt.Sleep("task:srverr", time.Duration(op.D))
+		w.be.SetServerError("")
+		w.srvErr[len(w.srvErr)-1][1] = time.Now()
+		e.Logf("%s server works again", ts.name)
 		return
 	case "create":
 		exp := expOf(op.D, t0)
@@ -722,6 +744,11 @@ func (w *world) doOp(ctx context.Context, ts *taskState, op sim.Op, i int) {
 	}
 	cv.register(&o)
 	e.Logf("%s %s -> %s", ts.name, w.canon(op.String()), w.canon(o.String()))
+	if strings.HasPrefix(o.Err, "other:") && w.srvErrDuring(t0, time.Now()) {
+		// the server refused to work during the call: the storage passes its error on
+		e.Probe("call_failed_by_server_error")
+		return
+	}
 	if strings.HasPrefix(o.Err, "other:") {
 		e.Violate(w.prop(), "undocumented_error", "%s %s failed with an error outside the contract (no fault was injected): %s", ts.name, opDesc(op), o.Err[6:])
 		return
@@ -1071,6 +1098,11 @@ func (w *world) doWait(ctx context.Context, ts *taskState, op sim.Op, i int, seq
 		// cancellation (e.g. an i/o timeout from a connection deadline) is the cancel outcome
 		e.Probe("wait_cancel_reported_as_transport_error")
 		o.Err = "ctx"
+	}
+	if strings.HasPrefix(o.Err, "other:") && w.srvErrDuring(ws.invAt, t1) {
+		// a poll met a server that refused to work: the storage passes its error on
+		e.Probe("wait_failed_by_server_error")
+		return
 	}
 	if strings.HasPrefix(o.Err, "other:") {
 		e.Violate(w.prop(), "undocumented_error", "%s WaitForVersionChange(%q) failed with an error outside the contract: %s", ts.name, key, o.Err[6:])
